@@ -181,7 +181,7 @@ PROPS = {
                      "sessions are modelled abstractly in the accounting lemmas: a map from session ids to the selected database"],
     ),
     "C05": dict(
-        units=["sync", "outbox", "oplog", "parser"],
+        units=["sync", "outbox", "oplog", "parser", "traffic"],
         undecided=["the protocol: join / replicate-since handshake, the supervisor loop, sockets, writes accepted during the synchronisation (async code, several processes)",
                    "the incremental path: that the operation-log query reports every pair changed since `since` is C12 (unit oplog); here ops_since(since) is any map of records whose "
                    "identifiers decode (precondition `decodes`: C16's subject); the comparison closure of its sort_by is replaced by a trusted shim (log order)",
